@@ -18,19 +18,28 @@ Range(s) == {s[i] : i \in 1..Len(s)}
 TInit == /\ h \in 1..NHist /\ l = 1 /\ want = [p \in Proc |-> -2]
          /\ PInitWith(Range(Tr[h].free), [p \in Proc |-> {x[2] : x \in {y \in Range(Tr[h].hold) : y[1] = p}}])
 Ev == Events(h)[l]
-TCall == /\ l <= Len(Events(h)) /\ Ev.e = "c"
+\* Search-space reductions (non-Strict steps only; they keep exactly the same set of accepted histories):
+\*  - Show has no guard and only enlarges `free`, which no guard tests negatively: it commutes to the left of every
+\*    other step, so it is taken immediately after the call of the push (nothing else may happen before it);
+\*  - Take(p, g) only shrinks `free` by the page p returns; any other use of g (a second Take, a push of g) needs p's
+\*    return first or is illegal anyway: it commutes to the right of every step up to p's return, so it is taken
+\*    only when that return is the next event.
+NeedShow == ~Strict /\ \E p \in Proc : pend[p] = "push" /\ ph[p] = "start"
+TCall == /\ l <= Len(Events(h)) /\ Ev.e = "c" /\ ~NeedShow
          /\ IF Ev.op = "pop" THEN CallPop(Ev.p) /\ want' = [want EXCEPT ![Ev.p] = Ev.w]
                              ELSE CallPush(Ev.p, Ev.g) /\ UNCHANGED want
          /\ l' = l + 1 /\ h' = h
-TRet == /\ l <= Len(Events(h)) /\ Ev.e = "r"
+TRet == /\ l <= Len(Events(h)) /\ Ev.e = "r" /\ ~NeedShow
         /\ IF Ev.op = "pop" THEN RetPop(Ev.p, Ev.g) ELSE RetPush(Ev.p, Ev.g)
         /\ l' = l + 1 /\ UNCHANGED <<h, want>>
 TLin == /\ l <= Len(Events(h)) /\ UNCHANGED <<h, l, want>>
-        /\ \E p \in Proc : \/ want[p] = -1 /\ Fail(p)
+        /\ \E p \in Proc : IF NeedShow THEN Show(p) ELSE
+                           \/ want[p] = -1 /\ Fail(p)
                            \/ want[p] # -1 /\ Claim(p)
-                           \/ want[p] >= 0 /\ (Take(p, want[p]) \/ ClaimTake(p, want[p]))
+                           \/ want[p] >= 0 /\ Ev.e = "r" /\ Ev.p = p /\ Take(p, want[p])
+                           \/ want[p] >= 0 /\ ClaimTake(p, want[p])
                            \/ want[p] = -2 /\ \E g \in free : ClaimTake(p, g)
-                           \/ Show(p) \/ Count(p) \/ ShowCount(p)
+                           \/ Count(p) \/ ShowCount(p)
 TNext == TCall \/ TRet \/ TLin
 Mark == MarkAccepted(h, l)
 Inv == TypeOK /\ NoDoubleOwner /\ Conservation /\ CountSound /\ StrictCount /\ Quiescent
